@@ -48,7 +48,10 @@ META = {
         "probe), terminal identity.  After each operation all settings are read on all nodes and compared "
         "with the reference model.  Non-trivial = a node is unset while an ancestor holds a non-default "
         "value, or siblings (classes with one parent, instances of one class) see different effective "
-        "values; distinct by (settings involved, tree shape, op-kind sequence)."
+        "values; distinct by (settings involved, tree shape, op-kind sequence).  The generator is biased "
+        "(node selectors favour one root-to-leaf chain, values favour non-defaults, sets dominate the first "
+        "half of a program and unsets the second, and 2/3 of the programs embed the pattern set-on-ancestor, "
+        "set-on-node, observe, unset-node, observe at random positions); label floors guard the bias."
     ),
     "assumptions": [
         "render framing identifies the render method: kitty LINES = one transmission (r=1) per line, "
@@ -66,6 +69,7 @@ META = {
 
 I = None
 env = None
+StyleError = None  # term_image.exceptions.StyleError, set by setup()
 FILES = {}
 _counter = [0]
 _PRISTINE = []
@@ -83,18 +87,16 @@ IDENTS = [
 
 
 def setup():
-    global I, env
+    global I, env, StyleError
     from .. import env as _env
 
     _env.install()
     import term_image.image as _I
     from PIL import Image
     from PIL.PngImagePlugin import PngInfo
-
-    I, env = _I, _env
     from term_image.exceptions import StyleError as _SE
 
-    globals()["StyleError"] = _SE
+    I, env, StyleError = _I, _env, _SE
     d = env.tmpdir()
     frames = []
     for i in (1, 2):
@@ -273,7 +275,6 @@ _OPS = {
     FORCED_SUPPORT: _fs_ops, JPEG_QUALITY: _jq_ops, READ_FROM_FILE: _rff_ops, NATIVE_ANIM: _na_ops,
     RENDER_METHOD: lambda late=False: _rm_ops(False, late),
 }
-MAX_OPS = 16
 
 
 def _skeleton(draw):
@@ -560,7 +561,7 @@ def _call(fn):
         return ("raise", e)
 
 
-def _write(obj, setting, value, noarg=False):
+def _write(obj, setting, value):
     if setting == RENDER_METHOD:
         if value is UNSET:
             return _call(lambda: obj.set_render_method())
@@ -684,6 +685,7 @@ def _run(c, case, rec):
         rec.label("tree:depth>=3")
     if c.insts:
         rec.label("has_instances")
+    rec.label(*["focus:" + f for f in focus])
 
     snapshot(c, render_snap, getters)  # initial state: documented defaults everywhere
 
@@ -858,7 +860,7 @@ def _run(c, case, rec):
             raise Violation(f"{c.name[cls]}(...) raised {type(e).__name__}: {e}\n{_prog(c)}",
                             _sig(c, FORCED_SUPPORT, cls, "instantiation"))
         inst = res[1]
-        n = m.add_instance(cls)
+        m.add_instance(cls)
         c.obj.append(inst)
         c.kind.append("pil")
         c.name.append(f"fresh {c.name[cls]}(...)")
@@ -866,8 +868,6 @@ def _run(c, case, rec):
     c.insts = [n for n in range(len(c.obj)) if m.is_inst[n] and n not in probes]
     snapshot(c, render_snap, getters)
 
-    for s in focus:
-        rec.label("focus:" + s)
     if settings_nontriv:
         rec.nontriv([sorted(settings_nontriv), c.shape, kinds])
 
